@@ -270,7 +270,12 @@ def build_bytes_from_sse(event: ServerSentEvent, charset: str) -> bytes:
     """
     data: Iterable[bytes]
     if "data" in event:
-        data = (f"data: {_}".encode(charset) for _ in event.pop("data").splitlines())
+        # Only CR, LF and CRLF end a line of an event stream. str.splitlines()
+        # also splits at VT, FF, FS, GS, RS, NEL, LS and PS.
+        lines = re.split(r"\r\n|\r|\n", event.pop("data"))
+        if lines[-1] == "":
+            lines.pop()  # like str.splitlines(): no extra line after a final line break
+        data = (f"data: {_}".encode(charset) for _ in lines)
     else:
         data = ()
     return b"\n".join(
